@@ -27,6 +27,10 @@ CORPUS = [
     ("log", 1, ("setx", 1, ("try", [("raise", ("const", ("exn", 1)))], [(("one", 1), [("const", ("int", 2))])], None, None))),
     ("try", [("const", ("int", 1))], [(("one", 1), [("const", ("int", 2))])], [], None),                      # fixed 08f501f
     ("try", [("log", 1, ("const", ("int", 1)))], [(("all",), [])], [], [("log", 2, ("const", ("none",)))]),
+    # fixed c90ef71: a finally whose forms compile to no statements, without handlers -> Try with empty finalbody
+    ("try", [("const", ("int", -3)), ("raise", ("const", ("exn", 2)))], [], [("do", [])], [("do", [])]),
+    ("try", [("const", ("int", 1))], [], None, [("do", [])]),
+    ("try", [("log", 1, ("const", ("int", 1)))], [(("one", 1), [("const", ("int", 2))])], None, []),
     ("setv", 0, ("bool", True, [("var", 1), ("do", [("setv", 2, ("var", 0)), ("var", 2)])])),              # finding C01-result-rename
 ]
 
